@@ -31,26 +31,26 @@ macro "close_arith" : tactic =>
 /-! ### the regenerated leaves -/
 
 theorem theta_eq (dec : ℝ) : sky2angTheta dec = π / 2 - dec := by
-  simp only [sky2angTheta, R.real_pi, R.real_ofNat, R.real_ofSci, R.real_radians, R.real_degrees, Nat.cast_ofNat] <;> close_arith
+  simp only [sky2angTheta, sky2angThetaHand, R.real_pi, R.real_ofNat, R.real_ofSci, R.real_radians, R.real_degrees, Nat.cast_ofNat] <;> close_arith
 
 theorem scale_false (x : ℝ) : skyWithinScale false x = x := by
-  simp [skyWithinScale]
+  simp [skyWithinScale, skyWithinScaleHand]
 
 theorem scale_true (x : ℝ) : skyWithinScale true x = x * (π / 180) := by
-  simp only [skyWithinScale, R.real_pi, R.real_ofNat, R.real_ofSci, R.real_radians, R.real_degrees, Nat.cast_ofNat, if_true] <;> close_arith
+  simp only [skyWithinScale, skyWithinScaleHand, R.real_pi, R.real_ofNat, R.real_ofSci, R.real_radians, R.real_degrees, Nat.cast_ofNat, if_true] <;> close_arith
 
 theorem raOf_false (phi : ℝ) : vec2skyRa false phi = phi := by
-  simp [vec2skyRa]
+  simp [vec2skyRa, vec2skyRaHand]
 
 theorem raOf_true (phi : ℝ) : vec2skyRa true phi = phi * (180 / π) := by
-  simp only [vec2skyRa, R.real_pi, R.real_ofNat, R.real_ofSci, R.real_radians, R.real_degrees, Nat.cast_ofNat, if_true] <;> close_arith
+  simp only [vec2skyRa, vec2skyRaHand, R.real_pi, R.real_ofNat, R.real_ofSci, R.real_radians, R.real_degrees, Nat.cast_ofNat, if_true] <;> close_arith
 
 theorem decOf_false (theta : ℝ) : vec2skyDec false theta = π / 2 - theta := by
-  simp only [vec2skyDec, R.real_pi, R.real_ofNat, R.real_ofSci, R.real_radians, R.real_degrees, Nat.cast_ofNat,
+  simp only [vec2skyDec, vec2skyDecHand, R.real_pi, R.real_ofNat, R.real_ofSci, R.real_radians, R.real_degrees, Nat.cast_ofNat,
     Bool.false_eq_true, if_false] <;> close_arith
 
 theorem decOf_true (theta : ℝ) : vec2skyDec true theta = (π / 2 - theta) * (180 / π) := by
-  simp only [vec2skyDec, R.real_pi, R.real_ofNat, R.real_ofSci, R.real_radians, R.real_degrees, Nat.cast_ofNat, if_true] <;> close_arith
+  simp only [vec2skyDec, vec2skyDecHand, R.real_pi, R.real_ofNat, R.real_ofSci, R.real_radians, R.real_degrees, Nat.cast_ofNat, if_true] <;> close_arith
 
 theorem sky2vec_eq_skyvec (ra dec : ℝ) : sky2vec sky2angTheta ra dec = skyvec ra dec := by
   simp only [sky2vec, sky2ang, theta_eq, ang2vec_colat, skyvec]
